@@ -9,13 +9,17 @@ import pandas as pd
 
 REQ = ['From PL Require Import Core.Broadcast.']
 
-NAMES = ['a', 'b', 'c', 'd', 'e']          # level-name pool; model name = position in this list
+NAMES = ['a', 'b', 'c', 'd', 'e', '', 0, 1]  # level-name pool; model name = position in this list
+ODD_NAMES = ['', 0, 1]                     # valid pandas level names that are falsy / not strings (e.g. after set_index(0))
 POOLS = {                                  # key pool per level name (homogeneous per level, mixed across levels)
     'a': [1, 2, 3, 4],
     'b': ['p', 'q', 'r', 's'],
     'c': [10, 20, 30],
     'd': ['x', 'y', 'z'],
     'e': [7, 8, 9],
+    '': [1, 2, 3],
+    0: ['p', 'q', 'r'],
+    1: [10, 20, 30, 40],
     None: [0, 1, 2, 3, 5],
 }
 
@@ -288,11 +292,10 @@ def rows_lit(enc, rows):
 
 
 def case_term(O, P, ob):
-    """check_case term for a frame-to-frame case (None if the observation cannot be expressed, e.g. NaN key components)."""
+    """check_case_top term for a frame-to-frame case (None if the observation cannot be expressed, e.g. NaN key components)."""
     enc = Enc()
-    zero_level_obj = O.kind == 'S' and O.levels == [None]
-    lo = [] if zero_level_obj else O.levels
-    ko = [()] if zero_level_obj else O.keys
+    # the object is passed as it is (kind, level names, keys): which path it takes is decided by the model's dispatch
+    # [is_paramset] (check_case_top); the observation `ob` was canonicalised with the oracle's reading of the documented rule
     if ob.raised is not None:
         exp, lv = 'Raise', '[]'
     elif ob.unaligned:
@@ -303,7 +306,8 @@ def case_term(O, P, ob):
         if any(_isnan(c) for r in ob.rows for c in r[0]) or any(r[1] == -1 or r[2] == -1 for r in ob.rows):
             return None
         exp, lv = 'Rows ' + rows_lit(enc, ob.rows), names_lit(ob.levels)
-    return 'check_case %s %s %s %s %s (%s)' % (names_lit(lo), keys_lit(enc, ko), names_lit(P.levels), keys_lit(enc, P.keys), lv, exp)
+    return 'check_case_top %s %s %s %s %s %s (%s)' % ('KSeries' if O.kind == 'S' else 'KFrame', names_lit(O.levels), keys_lit(enc, O.keys),
+                                                      names_lit(P.levels), keys_lit(enc, P.keys), lv, exp)
 
 
 # ----------------------------------------------------------------------------------------- generators
@@ -318,8 +322,14 @@ def rand_keys(rng, levels, n, pools=POOLS):
 def gen_pair(rng, maxrows=6):
     """One (obj, prm) pair of pandas-typed operands with a random level layout."""
     kind = rng.choice(['equal', 'equal', 'disjoint', 'prm_in_obj', 'obj_in_prm', 'overlap', 'overlap', 'anon', 'paramset'])
-    names = NAMES[:]
+    names = NAMES[:5]
     rng.shuffle(names)
+    if rng.random() < 0.15:
+        # odd but valid level names ('' / 0 / 1: falsy, not strings) in any role: shared, private to obj, private to prm
+        odd = ODD_NAMES[:]
+        rng.shuffle(odd)
+        for n in odd[:rng.randint(1, 3)]:
+            names.insert(rng.randint(0, 3), n)
     ko = kp = None
     if kind == 'equal':
         k = rng.choice([1, 1, 2, 2, 3])
@@ -343,8 +353,11 @@ def gen_pair(rng, maxrows=6):
         rng.shuffle(lp)
     elif kind == 'anon':
         # unnamed levels on either side (never shared), possibly besides named ones
-        lo = rng.choice([[None], [None, names[0]], [names[0]], [names[0], None], [names[0], names[1]]])
-        lp = rng.choice([[None], [None, names[0]], [names[1]], [names[0], None], [None, names[2]]])
+        # ... including operands ALL of whose (several) levels are unnamed (MultiIndex.from_product / stack() without names)
+        lo = rng.choice([[None], [None, names[0]], [names[0]], [names[0], None], [names[0], names[1]],
+                         [None, None], [None, None], [None, None, None], [None, names[0], None]])
+        lp = rng.choice([[None], [None, names[0]], [names[1]], [names[0], None], [None, names[2]],
+                         [None, None], [None, None, names[0]]])
         if None not in lo and None not in lp:
             lp = [None] + lp[:1]
     else:   # parameter-set Series (single unnamed level) as object
@@ -384,7 +397,7 @@ def gen_pair(rng, maxrows=6):
             out = []
             for i, k in enumerate(ks):
                 it = iter(k)
-                out.append(tuple(POOLS[None][i % 5] if l is None else next(it) for l in levels))
+                out.append(tuple(POOLS[None][(i + 2 * j) % 5] if l is None else next(it) for j, l in enumerate(levels)))
             return out
         ko, kp = expand_anon(lo, no), expand_anon(lp, np_)
     else:
@@ -455,3 +468,10 @@ def coincident_codes(O, P):
         return False
     co, cp = coded(O, P)
     return co == cp
+
+
+def int_level_name(O, P):
+    """Class of the known finding C13/integer-level-name: some index level of an operand is named by an integer (e.g. 0 after
+    set_index(0) on a header-less table).  pandas addresses levels 'by number or by name' and takes an integer for a number
+    in several places (get_level_values on a one-level Index, join of a MultiIndex with a level named 0)."""
+    return any(isinstance(n, int) and not isinstance(n, bool) for n in list(O.levels) + list(P.levels))
